@@ -57,8 +57,9 @@ type container interface {
 // ---------------------------------------------------------------- deque
 
 type dq struct {
-	d    deque.Deque[int]
-	next int
+	d         deque.Deque[int]
+	next      int
+	genAtIter int // the deque's modification counter when Iterate() was called (read through the hook, used for steering only)
 }
 
 func (c *dq) fresh() int { c.next++; return c.next }
@@ -72,6 +73,7 @@ func (c *dq) snapshot() []int {
 func (c *dq) ordered() bool { return true }
 func (c *dq) iterate() func() (int, bool) {
 	it := c.d.Iterate()
+	_, _, _, c.genAtIter = c.d.VerifState()
 	return it.Next
 }
 func (c *dq) setup(o SetupOp) {
@@ -130,6 +132,21 @@ func (c *dq) apply(o MidOp) effect {
 		}
 		c.d.Set(o.A%c.d.Len(), c.fresh())
 		return changed
+	case "DrainRefill":
+		// Empty the deque, then refill it with fresh values. If emptying rewinds the modification counter,
+		// refill until the counter is back at the value the iterator remembers (a stale iterator would then
+		// look valid); on a counter that only ever grows this is just "pop everything, push a few".
+		for c.d.Len() > 0 {
+			c.d.PopFront()
+		}
+		for pushes := 0; pushes < 300; pushes++ {
+			_, _, _, g := c.d.VerifState()
+			if (g == c.genAtIter && pushes > 0) || (g > c.genAtIter && pushes > o.A%4) {
+				break
+			}
+			c.d.PushBack(c.fresh())
+		}
+		return addRemove
 	case "Grow":
 		c.d.Grow(o.A)
 	case "Shrink":
@@ -285,7 +302,7 @@ func (c *pq) apply(o MidOp) effect {
 
 // ---------------------------------------------------------------- generator
 
-var dequeMid = []string{"PushFront", "PushBack", "PopFront", "PopBack", "Set", "Grow", "Shrink", "Grow", "Shrink", "Set"}
+var dequeMid = []string{"PushFront", "PushBack", "PopFront", "PopBack", "Set", "Grow", "Shrink", "Grow", "Shrink", "Set", "DrainRefill"}
 var heapMid = []string{"Push", "Pop", "Grow", "Shrink"}
 var queueMid = []string{"UpdateLower", "UpdateHigher", "UpdateEqual", "UpdateLower", "UpdateHigher", "UpdateNew", "Remove", "RemoveAbsent", "Pop", "Grow"}
 var posRel = []string{"root", "last", "inner", "leaf", "any"}
